@@ -184,7 +184,7 @@ def corpus_shard(arg):
 
 
 def run(ctx):
-    ctx.map(random_shard, [(s, ctx.pick(300, 6000)) for s in ctx.shard_seeds(16)])
+    ctx.map(random_shard, [(s, ctx.pick(450, 6000)) for s in ctx.shard_seeds(16)])
     ctx.map(corpus_shard, corpus(big=not ctx.quick))
 
 
